@@ -113,6 +113,19 @@ def conc_scenarios(tier, rng):
     scs.append({"init": [I(1, 1, 3)], "progs": [[Match(1), Match(1)], [Match(2)]]})
     scs.append({"init": [R(1, 1, 3, 0, 1, True)], "progs": [[Match(1), Match(1)], [Match(1)]]})
     scs.append({"init": [I(1, 1, 2), R(2, 1, 2, 1, 1, True)], "progs": [[Match(2)], [Match(2)]]})
+    # an amendment that RAISES the quantity of (nearly) the only order while a sweeping match runs: the counters
+    # hold less than the order shows if the order is re-queued before it is credited
+    scs.append({"init": one, "progs": [[Amend(1, 3)], [Match(3)]]})
+    scs.append({"init": one, "progs": [[Amend(1, 3), READ], [Match(4), READ]]})
+    scs.append({"init": [I(1, 1, 1)], "progs": [[Amend(1, 4)], [Match(5)]]})
+    scs.append({"init": [S(1, 1), S(2, 1)], "progs": [[Upq(2, PRICE, 5)], [Match(9)]]})
+    # orders of size 0 (amended to 0 or added so): they weigh nothing in the counters but are in the book
+    zero = [S(1, 2), S(2, 0)]
+    scs.append({"init": zero, "progs": [[Match(2)], [Cancel(2)]]})
+    scs.append({"init": zero, "progs": [[Match(2)], [Amend(2, 1)]]})
+    scs.append({"init": [S(1, 0)], "progs": [[Cancel(1)], [READ]]})
+    scs.append({"init": [S(1, 2)], "progs": [[Amend(1, 0), Cancel(1)], [Match(1)]]})
+    scs.append({"init": [I(1, 0, 0), S(2, 1)], "progs": [[Cancel(1)], [Match(1)], [Amend(1, 0)]]})
     # orders whose own price field differs from the level's (add_order does not check it): transactions and
     # statistics must still be booked at the level's price, whoever matches them
     offp = [dict(S(1, 2), px=PRICE - 3), dict(I(2, 1, 2), px=PRICE + 2)]
